@@ -332,58 +332,126 @@ static Case parse_case(const std::string &line)
     return c;
 }
 
-int main()
+// One forked child runs the cases in order and streams one line per case through a pipe
+// (operands first, then the result, then the oracle); when the child dies (signal / alarm) the
+// parent attributes the failure to the stage that was running and resumes after that case.
+static void wr(int fd, const std::string &s)
 {
-    std::string line;
-    while (std::getline(std::cin, line)) {
-        if (line.empty()) {
-            std::cout << "BADLINE\n";
-            continue;
-        }
+    size_t off = 0;
+    while (off < s.size()) {
+        ssize_t w = write(fd, s.data() + off, s.size() - off);
+        if (w <= 0)
+            _exit(3);
+        off += (size_t)w;
+    }
+}
+
+static void child_run(int fd, const std::vector<std::string> &lines, size_t from)
+{
+    for (size_t k = from; k < lines.size(); k++) {
         Case c;
         try {
-            c = parse_case(line);
+            if (lines[k].empty())
+                throw std::runtime_error("empty");
+            c = parse_case(lines[k]);
         } catch (...) {
-            std::cout << "BADLINE\n";
+            wr(fd, "BADLINE\n");
             continue;
         }
-        // stage 1: operands (a nested recipe may crash: reported as OPERAND failure)
-        std::string ops = verif::run_forked([&]() {
+        std::vector<RCP<const Basic>> vals;
+        std::string ops;
+        alarm(5);
+        try {
+            ops = operands_part(c, vals);
+        } catch (...) {
+            wr(fd, "OPERAND:" + verif::exn_name() + "\n");
+            continue;
+        }
+        if (ops.find("Opaque") != std::string::npos) {
+            wr(fd, "OPERAND:Opaque\n");
+            continue;
+        }
+        wr(fd, ops + "\t");
+        alarm(3);
+        RCP<const Basic> res;
+        std::string r = result_part(c, vals, res);
+        wr(fd, r);
+        if (!res.is_null()) {
+            alarm(20);
+            std::string orc;
             try {
-                std::vector<RCP<const Basic>> vals;
-                return operands_part(c, vals);
+                orc = oracle_part(c, vals, res);
             } catch (...) {
-                return std::string("OPERAND:") + verif::exn_name();
+                orc = "";
             }
-        }, 5);
-        if (ops.compare(0, 2, "D:") != 0 || ops.find("CRASH:") != std::string::npos || ops.find("HANG") != std::string::npos
-            || ops.find("Opaque") != std::string::npos) {
-            std::cout << "OPERAND:" << ops << "\n";
-            continue;
-        }
-        // stage 2: the operation
-        std::string r = verif::run_forked([&]() {
-            std::vector<RCP<const Basic>> vals;
-            operands_part(c, vals);
-            RCP<const Basic> res;
-            return result_part(c, vals, res);
-        }, 3);
-        if (r.compare(0, 2, "R:") != 0)
-            r = "R:" + r; // CRASH:<sig> or HANG
-        std::string out = ops + "\t" + r;
-        // stage 3: oracle on the library's own outputs
-        if (r.find("EXN:") == std::string::npos && r.find("CRASH:") == std::string::npos && r.find("HANG") == std::string::npos) {
-            std::string orc = verif::run_forked([&]() {
-                std::vector<RCP<const Basic>> vals;
-                operands_part(c, vals);
-                RCP<const Basic> res;
-                result_part(c, vals, res);
-                return oracle_part(c, vals, res);
-            }, 20);
             if (!orc.empty())
-                out += "\t#ORACLE:" + orc;
+                wr(fd, "\t#ORACLE:" + orc);
         }
-        std::cout << out << "\n";
+        wr(fd, "\n");
+    }
+}
+
+int main()
+{
+    std::vector<std::string> lines;
+    std::string line;
+    while (std::getline(std::cin, line))
+        lines.push_back(line);
+    size_t i = 0;
+    while (i < lines.size()) {
+        int fd[2];
+        if (pipe(fd) != 0)
+            return 2;
+        fflush(stdout);
+        pid_t pid = fork();
+        if (pid == 0) {
+            close(fd[0]);
+            struct rlimit rl;
+            rl.rlim_cur = rl.rlim_max = 0;
+            setrlimit(RLIMIT_CORE, &rl);
+            // unbounded recursion shows up quickly and deterministically as SIGSEGV: 1 MiB of stack
+            // is far more than any terminating computation on the small inputs used needs
+            rl.rlim_cur = rl.rlim_max = 1 << 20;
+            setrlimit(RLIMIT_STACK, &rl);
+            child_run(fd[1], lines, i);
+            close(fd[1]);
+            _exit(0);
+        }
+        close(fd[1]);
+        std::string buf;
+        char tmp[65536];
+        ssize_t r;
+        while ((r = read(fd[0], tmp, sizeof tmp)) > 0)
+            buf.append(tmp, (size_t)r);
+        close(fd[0]);
+        int status = 0;
+        waitpid(pid, &status, 0);
+        size_t st = 0, done = 0;
+        while (true) {
+            size_t p = buf.find('\n', st);
+            if (p == std::string::npos)
+                break;
+            std::cout << buf.substr(st, p - st) << "\n";
+            st = p + 1;
+            done++;
+        }
+        i += done;
+        if (i >= lines.size())
+            break;
+        // the child died while working on case i
+        std::string part = buf.substr(st);
+        std::string why = "CRASH:?";
+        if (WIFSIGNALED(status))
+            why = WTERMSIG(status) == SIGALRM ? "HANG" : "CRASH:" + std::to_string(WTERMSIG(status));
+        else
+            why = "EXIT:" + std::to_string(WEXITSTATUS(status));
+        if (part.compare(0, 2, "D:") != 0)
+            std::cout << "OPERAND:" << why << "\n";
+        else if (part.find("\tR:") == std::string::npos)
+            std::cout << part << "R:" << why << "\n";
+        else
+            std::cout << part << "\n"; // the operation finished; only the oracle died
+        i++;
     }
     return 0;
 }
